@@ -2,3 +2,4 @@ pub mod common;
 pub mod c01;
 pub mod c02;
 pub mod c03;
+pub mod c05;
